@@ -8,6 +8,7 @@ mod c15;
 mod c16;
 mod coq;
 mod corpus;
+mod ctier;
 mod dd;
 mod famgen;
 mod faults;
@@ -26,6 +27,15 @@ use std::path::PathBuf;
 
 fn main() {
     let args: Vec<String> = std::env::args().collect();
+    if args.len() >= 2 && args[1] == "compile-tier" {
+        std::panic::set_hook(Box::new(|info| {
+            let msg = info.to_string();
+            if msg.contains("harness") || std::env::var("VH_DEBUG").is_ok() {
+                eprintln!("{msg}");
+            }
+        }));
+        std::process::exit(ctier::main(&args[2..]));
+    }
     if args.len() < 5 {
         eprintln!("usage: vharness <prop> <tier> <seed> <outdir> [--shards N] [--replay file]");
         std::process::exit(2);
